@@ -29,9 +29,9 @@ def judge(rec, opts):
     if rec.get("focus") == "confused":
         # a loop iteration limit is configured: what a huge range or array costs is bounded by it, not by its length
         rec = dict(rec, cfg=dict(rec["cfg"], limits={"loop": 10000}))
-    t0 = time.perf_counter()
+    t0 = time.process_time()
     got, _ = replay.render_record(rec)
-    dt = time.perf_counter() - t0
+    dt = time.process_time() - t0
     if dt > SLOW:
         # "returns in time bounded by the size of the input and the configured limits": a few symbols, a number
         from .c01 import constructs
@@ -105,7 +105,7 @@ def judge_src(rec, opts):
         env = opts["_env"] = Environment(loader=DictLoader({"p": "[{{ v }}]"}))
     src = rec["src"].replace("@DIGITS@", DIGITS)
     shown = rec["src"]
-    t0 = time.perf_counter()
+    t0 = time.process_time()
     try:
         env.from_string(src).render(**SRC_DATA)
     except LiquidError as e:
@@ -114,8 +114,8 @@ def judge_src(rec, opts):
             return [(f"error-probe:{p}:{rec['focus']}", {"src": shown})]
     except Exception as e:  # noqa: BLE001
         return [(f"source-raised-{type(e).__name__}@{replay.raise_site(e)}", {"src": shown, "error": str(e)[:160]})]
-    if time.perf_counter() - t0 > SLOW:
-        return [(f"slow-render:{rec['focus']}", {"src": shown, "seconds": round(time.perf_counter() - t0, 1)})]
+    if time.process_time() - t0 > SLOW:
+        return [(f"slow-render:{rec['focus']}", {"src": shown, "seconds": round(time.process_time() - t0, 1)})]
     return []
 
 
